@@ -105,6 +105,24 @@ theorem clockAhead_of_no_restart (nows : List Nat) (last : Nat) (hl : last ≤ u
     rw [this]
     exact ih _ hst.2
 
+/-- **A value generated for a command that then fails is dropped, and per name the values still
+    strictly increase** — for every sequence of `Generate` calls of one process (arbitrary clock
+    readings), each made by a command that either goes on to create a mailbox name under the
+    returned value (`some name`) or fails after the call (`none`: the name exists or is
+    malformed, the connector refuses, a limit is reached, the transaction rolls back — the value
+    is thrown away with the command, as `State.Create` does), and for every name: the successive
+    UIDVALIDITY values of that name strictly increase, whoever (which session, the connector)
+    issued the commands in between.  The statement rests on each creation using the value of
+    *its own* `Generate` call; the wire oracle `c04uids` checks that on the real server with
+    histories failed command → other party's create + delete of the name → successful command
+    (harness/o_uids_pattern.go), where a value kept over from a failed command shows up as
+    `cause=uidvalidity-regress` / `model-uidv-process-order`. -/
+theorem failed_commands_drop_values (nows : List Nat) (tags : List (Option String)) (last : Nat)
+    (hl : last ≤ u32max) (name : String) :
+    (valuesOf name (usedFor tags (run nows last))).Pairwise (· < ·) :=
+  ((uidv_mono_process nows last hl).1.sublist (usedFor_sublist tags _)).sublist
+    (valuesOf_sublist name _)
+
 -- non-vacuity: a burst, a clock that jumps backwards, and the 32-bit boundary
 example : okVals (run [100, 100, 100, 7, 200] fresh) = [100, 101, 102, 103, 200] := by decide
 example : run [4294967294, 4294967294, 4294967294, 4294967290] fresh
@@ -112,6 +130,9 @@ example : run [4294967294, 4294967294, 4294967294, 4294967290] fresh
 example : (generate (tsOfSecs (-5)) fresh).1 = .err := by decide
 -- a fresh generator whose clock reads second 0 cannot issue anything below 1: it spins to 1
 example : generate (tsOfSecs 0) fresh = (.ok 1, 1) := by decide
+-- session A's CREATE of an existing name (value 100 dropped), B creates and deletes "x" (101),
+-- A creates "x" (102): the name's values are [101, 102]
+example : valuesOf "x" (usedFor [none, some "x", some "x"] (run [100, 100, 100] fresh)) = [101, 102] := by decide
 -- a history with a restart that satisfies the hypothesis
 example : ClockAhead [.gen 100, .gen 100, .restart, .gen 102] fresh 0 := by decide
 
